@@ -1253,6 +1253,45 @@ pub fn exec_mod(w: &mut World, op: &Op, rest: &str, env: &mut Env) {
             w.u[dst] = r.residue();
             env.res(Pool::U, dst);
         }
+        "half" => {
+            // elements whose plain product lands just above the modulus without being longer than it: the reduction
+            // paths that avoid a full division (single conditional subtraction) are taken
+            let modulus = if op.lit.is_empty() { w.u[a].clone() } else { UBig::from_le_bytes(&op.lit) };
+            if modulus.is_zero() {
+                return env.skip();
+            }
+            let bits = modulus.bit_len();
+            let ring = ConstDivisor::new(modulus.clone());
+            let (x0, y0) = if bits % 64 == 0 && bits >= 192 {
+                // word-aligned modulus (no normalisation shift): k words times (n - k) words, both nearly all ones
+                let n = bits / 64;
+                let k = 1 + (op.n.unsigned_abs() as usize % (n - 1));
+                (UBig::ones(64 * k) - UBig::from(c as u8), UBig::ones(64 * (n - k)) - UBig::from(op.m.unsigned_abs() as u8))
+            } else {
+                let h = bits / 2;
+                (
+                    &modulus >> h.saturating_sub(op.n.unsigned_abs() as usize % 3),
+                    (&modulus >> (bits - h).saturating_sub(op.m.unsigned_abs() as usize % 3)) + UBig::from(c as u8),
+                )
+            };
+            let x = ring.reduce(x0);
+            let y = ring.reduce(y0);
+            let r = match (op.form & 255) % 5 {
+                0 => x.clone() * y.clone(),
+                1 => x.sqr() + y.sqr(),
+                2 => x.pow(&UBig::from(3u8)),
+                3 => &x * &y + x.clone(),
+                _ => {
+                    let mut t = x.clone();
+                    t *= &y;
+                    t
+                }
+            };
+            let res = r.residue();
+            env.emit_u64("lt_modulus", (res < modulus) as u64);
+            w.u[dst] = res;
+            env.res(Pool::U, dst);
+        }
         "ring2" => {
             // two different rings: mixing them must panic (documented)
             let r1 = ConstDivisor::new(w.u[a].clone());
